@@ -7,10 +7,65 @@ def run(ctx):
     ctx.clause = ("a temporary ABIXML file is flushed before it is re-read by path (abilint --diff, abidw --abidiff), "
                   "and nothing the writer emits is unknown to the reader (a writer-only name cannot survive "
                   "read+write)")
-    ctx.rules = ["R-FLUSH", "R-VOCAB", "R-ENUMTAB"]
+    ctx.rules = ["R-FLUSH", "R-VOCAB", "R-ENUMTAB", "R-ALIASFIFO"]
     P = ctx.program(["tools/abidw.cc", "tools/abilint.cc"] + vr.UNITS)
     wr.check_flush(ctx, P)
     vr.check_vocab(ctx, P)
     vr.check_enumtab(ctx, P)
+    check_aliasfifo(ctx)
     ctx.assume("byte equality of the rest of the document (ordering, ids) is runtime behaviour; the iteration-order "
                "clause is decided under C14")
+
+
+
+def check_aliasfifo(ctx):
+    """R-ALIASFIFO: the writer lists the aliases of a symbol in ring order (`alias='a,b,c'`) and the reader rebuilds the
+    ring by calling elf_symbol::add_alias() from left to right; the order survives read+write only if add_alias()
+    *appends*: the new alias's successor is the main symbol, and it is linked after the element that used to close
+    the ring.  Shape rule on add_alias: every store into <parameter>->priv_->next_alias_ has the main symbol as its
+    value (get_main_symbol() or a local / this that denotes it), never another alias."""
+    from engine.facts import walk, call_args, member_call_object, expr_str
+    from engine.cfg import strip_casts
+    from engine.compdb import AnalysisBroken
+    P = ctx.program(["src/abg-ir.cc"])
+    f = P.fn1("abigail::ir::elf_symbol::add_alias")
+    ctx.analysed(f)
+    param = f.r["params"][0]
+    main_locals = set()
+    for n in f.nodes():
+        if n["k"] == "VarDecl" and n.get("c") and n["c"][0] is not None:
+            e = strip_casts(n["c"][0])
+            while e is not None and e["k"] in ("CXXConstructExpr", "ExprWithCleanups", "CXXBindTemporaryExpr",
+                                               "MaterializeTemporaryExpr") and len(call_args(e) or e.get("c", [])) == 1:
+                e = strip_casts((call_args(e) or e["c"])[0])
+            if e is not None and e["k"] == "CXXMemberCallExpr" and (f.decl(e) or {}).get("n") == "get_main_symbol":
+                main_locals.add(n.get("d"))
+
+    def is_main(e):
+        e = strip_casts(e)
+        while e is not None and e["k"] in ("CXXConstructExpr", "ExprWithCleanups", "CXXBindTemporaryExpr",
+                                           "MaterializeTemporaryExpr", "ImplicitCastExpr") and len(call_args(e) or e.get("c", [])) == 1:
+            e = strip_casts((call_args(e) or e["c"])[0])
+        if e is None:
+            return False
+        if e["k"] == "CXXMemberCallExpr" and (f.decl(e) or {}).get("n") == "get_main_symbol":
+            return True
+        return e["k"] == "DeclRefExpr" and e.get("d") in main_locals
+    stores = []
+    for n in f.nodes():
+        if n["k"] in ("BinaryOperator", "CXXOperatorCallExpr") and n.get("op") == "=":
+            lhs, rhs = (call_args(n)[0], call_args(n)[1]) if n["k"] == "CXXOperatorCallExpr" else (n["c"][0], n["c"][1])
+            l = strip_casts(lhs)
+            if l is not None and l["k"] == "MemberExpr" and (f.decl(l) or {}).get("n") == "next_alias_" and \
+                    any(x["k"] == "DeclRefExpr" and x.get("d") == param for x in walk(l)):
+                stores.append((n, rhs))
+    if not stores:
+        raise AnalysisBroken("anchor vanished: no store into alias->priv_->next_alias_ in elf_symbol::add_alias")
+    for i, (n, rhs) in enumerate(stores):
+        ok = is_main(rhs)
+        ctx.ob("R-ALIASFIFO", "elf_symbol::add_alias: the new alias closes the ring (its successor is the main symbol)%s" % (
+            "" if i == 0 else " #%d" % (i + 1)), ok, f.loc(n),
+            "`%s`" % expr_str(f, n)[:80] if ok else
+            "`%s`: the new alias is linked in front of existing aliases; the reader, which re-adds the aliases in the order "
+            "they are written, then reverses the list on every read+write - abilint is not a fixpoint for symbols with two "
+            "or more aliases" % expr_str(f, n)[:90])
